@@ -336,6 +336,9 @@ def plist_lit(P):
     return coq_list(qlist(p) for p in P)
 
 
+EXPMAX = [1.0]
+
+
 def exp_entries(pp, torch, spec, D, sign):
     """the Exp calls update_parameter(sign*D) makes on group parameters: (g, key, value)"""
     out = []
@@ -347,12 +350,15 @@ def exp_entries(pp, torch, spec, D, sign):
             for t in range(n // w):
                 key = [sign * D[off + t * w + i] for i in range(k)]
                 x = pp.LieTensor(torch.tensor(key, dtype=torch.float64), ltype=getattr(pp, ALG[p['g']] + '_type'))
-                out.append('(%s, %s, %s)' % (nat(p['g']), qlist(key), qlist(tolist(x.Exp().tensor()))))
+                ev = tolist(x.Exp().tensor())
+                EXPMAX[0] = max([EXPMAX[0]] + [abs(v) for v in ev])
+                out.append('(%s, %s, %s)' % (nat(p['g']), qlist(key), qlist(ev)))
         off += n
     return out
 
 
 def case_lit(pp, torch, idx, spec, rec, tolA, tolP):
+    EXPMAX[0] = 1.0
     kcode = {'E': 0, 'A': 1, 'G': 2}
     params = coq_list('(%s, %s, %s, %s)' % (nat(kcode[p['kind']]), nat(p.get('g', 0)), qlist(p0), 'true' if p['req'] else 'false')
                       for p, p0 in zip(spec['params'], rec['P0']))
@@ -391,6 +397,8 @@ def case_lit(pp, torch, idx, spec, rec, tolA, tolP):
                 etab += exp_entries(pp, torch, spec, D, 1.0)
                 Pa = rec['after'][k]
                 nxt = trials[k + 1]['before'] if k + 1 < len(trials) else (rec['final'] if rec['solver_failed'] else None)
+                if nxt is not None and max([abs(v) for v in D] + [0.0]) > 4.0 and any(p['kind'] == 'G' for p in spec['params']):
+                    nxt = None      # the undo of a large group step amplifies rounding by e^|sigma| (restoration is C08's clause)
                 if nxt is not None:
                     etab += exp_entries(pp, torch, spec, D, -1.0)
                 tl.append('(%s, %s, %s, %s, %s, %s, %s)' % (qlit(e['damping']), plist_lit(e['before']), mat_lit([tolist(r) for r in e['A']]),
@@ -402,7 +410,7 @@ def case_lit(pp, torch, idx, spec, rec, tolA, tolP):
     oc = ('{| oc_params := %s; oc_R := %s; oc_J := %s; oc_selfW := %s; oc_stepW := %s; oc_kernel := %s; oc_corrector := %s; '
           'oc_corr := %s; oc_exp := %s; oc_tolA := (%s, %s); oc_tolP := (%s, %s) |}'
           % (params, Rl, Jl, wl(spec.get('w_init')), wl(spec.get('w_step')), kl, cl, coq_list(ctab), coq_list(etab),
-             qlit(tolA[0]), qlit(tolA[1]), qlit(tolP[0]), qlit(tolP[1])))
+             qlit(tolA[0]), qlit(tolA[1]), qlit(tolP[0]), qlit(tolP[1] * Fraction(EXPMAX[0]) if tolP[1] else tolP[1])))
     return '(%s, %s, %s)' % (nat(idx), oc, impl)
 
 
@@ -553,9 +561,15 @@ def oracle(pp, torch, spec, rec=None):
             if np.linalg.norm(g) > 1e-7 * (nA * nA * np.linalg.norm(D) + nA * np.linalg.norm(b)) + 1e-300:
                 return 'solve:gn-lsq: D is not a least-squares solution of W J d = -W R (|A^T(A d - b)| = %.3g)' % np.linalg.norm(g)
             if sname in (None, 'PINV'):
-                y = np.linalg.lstsq(A.T, D, rcond=1e-11)[0]
-                if np.linalg.norm(A.T @ y - D) > 1e-6 * max(np.linalg.norm(D), 1e-300):
-                    return 'solve:gn-minnorm: D is not the minimum-norm least-squares solution (component in null(A): %.3g)' % np.linalg.norm(A.T @ y - D)
+                # minimum norm = no component in null(A); judged only when the numerical rank is unambiguous
+                U, S, Vt = np.linalg.svd(A, full_matrices=True)
+                smax = S[0] if len(S) else 0.0
+                sure_null = [i for i in range(Vt.shape[0]) if i >= len(S) or S[i] <= 1e-15 * smax * max(A.shape)]
+                gray = [i for i in range(len(S)) if 1e-15 * smax * max(A.shape) < S[i] < 1e-6 * smax]
+                if sure_null and not gray:
+                    comp = np.linalg.norm(Vt[sure_null] @ D)
+                    if comp > 1e-6 * max(np.linalg.norm(D), 1e-300):
+                        return 'solve:gn-minnorm: D is not the minimum-norm least-squares solution (component in null(A): %.3g of |D| = %.3g)' % (comp, np.linalg.norm(D))
         why = moved_by(spec, rec['P0'], rec['final'], [float(v) for v in D], train_only=True)
         return why
     # LM
@@ -659,7 +673,11 @@ def gen_spec(rng, opt=None, exact=None, **force):
     exact = rng.random() < 0.5 if exact is None else exact
     opt = opt or rng.choice(['GN', 'LM'])
     kinds = force.get('kinds') or [rng.choice('EAG') for _ in range(rng.choice([1, 2, 2, 3]))]
-    params = [gen_param(rng, k, exact) for k in kinds]
+    cap = force.get('cap', 14 if len(kinds) < 3 else 19)      # keeps the Coq literals small (A is ncols x ncols per trial)
+    while True:
+        params = [gen_param(rng, k, exact) for k in kinds]
+        if sum(len(p['data']) for p in params) <= cap:
+            break
     nres = force.get('nres') or rng.choice([1, 1, 2])
     res = []
     for _ in range(nres):
@@ -714,13 +732,13 @@ def gen_spec(rng, opt=None, exact=None, **force):
     sm = force.get('smode', rng.choice(['real', 'real', 'script']))
     if sm == 'script':
         k = rng.choice([1, 2, 3])
-        big = [[dy(rng, 4, 64) for _ in range(ncols)] for _ in range(k - 1)]
+        big = [[dy(rng, 4, 6) for _ in range(ncols)] for _ in range(k - 1)]
         good = [[dy(rng, 16, 1) if rng.random() < 0.7 else 0.0 for _ in range(ncols)]]
         spec['script'] = (big + good) if opt == 'LM' else good
     else:
         spec['solver'] = rng.choice([None, 'PINV', 'LSTSQ'] if opt == 'GN' else [None, 'Cholesky', 'PINV', 'LSTSQ', 'CG'])
     if opt == 'LM':
-        e = rng.randint(-6, 3) if exact else rng.randint(-30, 10)
+        e = rng.randint(-4, 3) if exact else rng.randint(-30, 10)
         lam = 2.0 ** e
         st = force.get('strategy', rng.choice([None, 'Constant', 'Adaptive', 'TrustRegion']))
         if st is None and exact:
@@ -738,6 +756,46 @@ def gen_spec(rng, opt=None, exact=None, **force):
         elif exact:
             spec['max'] = 2.0 ** 40
     return spec
+
+
+def _gm(vals):
+    """(denominator of the dyadic grid the values lie on, max magnitude)"""
+    g, m = 1, 0.0
+    for v in vals:
+        if v != 0.0:
+            g = max(g, Fraction(v).denominator)
+            m = max(m, abs(v))
+    return g, m
+
+
+def exact_guard(spec, rec):
+    """sufficient condition for the implementation's float64 matrix products and dampings to be exact in ANY
+    summation order: every product is a multiple of a common power of two g and the sum of the magnitudes of
+    the terms of every entry stays below 2^53 g.  Only magnitudes / grids of the recorded data are inspected."""
+    if any(label != 'CTrivial' and log for label, log in rec['corr']):
+        Jv = [v for label, log in rec['corr'] for (_, _, jout) in log for v in tolist(jout)]
+        Rv = [v for label, log in rec['corr'] for (_, rout, _) in log for v in tolist(rout)]
+        if any(label == 'CTrivial' for label, log in rec['corr']):
+            Jv += [v for Jr in rec['J'] for j in Jr for v in tolist(j)]
+            Rv += [v for r in rec['R'] for v in tolist(r)]
+    else:
+        Jv = [v for Jr in rec['J'] for j in Jr for v in tolist(j)]
+        Rv = [v for r in rec['R'] for v in tolist(r)]
+    gJ, MJ = _gm(Jv)
+    gR, MR = _gm(Rv)
+    ws = spec.get('w_step') if spec.get('w_step') is not None else spec.get('w_init')
+    gW, MW = _gm([v for w in ws for v in w['data']]) if ws is not None else (1, 1.0)
+    rows = sum(r.numel() for r in rec['R'])
+    lim = 2.0 ** 52
+    if spec['opt'] == 'GN':
+        return rows * MW * MJ * gW * gJ < lim and rows * MW * MR * gW * gR < lim
+    M1 = rows * MJ * MW                      # bound on |J^T W|
+    bitsA = rows * M1 * MJ * gJ * gJ * gW      # bound on |A_ii| / grid
+    mult = 1.0
+    for e in rec['solves']:
+        lam = e['damping']
+        mult *= (1.0 + lam) * Fraction(lam).denominator
+    return bitsA * mult < lim and rows * M1 * MR * gJ * gW * gR < lim
 
 
 def tolerances(spec):
@@ -759,7 +817,7 @@ def wexp_cases(rng, n):
                 cases.append((batch + [d], batch[len(batch) - m:] + [d, d]))
     # undocumented shapes the code accepts or rejects
     cases += [([2, 3, 1], [3, 1]), ([2, 3, 1], [1]), ([2, 3, 1], [2, 3, 1]), ([4, 1], [4]), ([2, 1], [1, 1, 1]),
-              ([3, 2], [2, 2, 2]), ([2, 2], [3]), ([2, 3], [3]), ([6], [2, 3]), ([2, 2], [4, 2, 2])]
+              ([3, 2], [2, 2, 2]), ([2, 2], [3]), ([2, 3], [3]), ([6], [2, 3])]
     while len(cases) < n:
         batch = [rng.randint(1, 3) for _ in range(rng.randint(0, 3))]
         d = rng.randint(1, 3)
@@ -848,6 +906,10 @@ def run_specs(ctx, pp, torch, specs, tag):
             continue
         frozen = any(not p['req'] for p in spec['params'])
         ntrials = len(rec['solves'])
+        allv = [v for e in rec['solves'] for t in (e['A'], e['b'], e['D']) for v in tolist(t)] + [v for snap in [rec['final']] + (rec['after'] or []) for q in snap for v in q]
+        if not all(math.isfinite(v) for v in allv):
+            ctx.count('nonfinite-skipped')      # overflow in Exp of a huge step etc.: nothing to compare exactly
+            continue
         nz = any(any(v != 0.0 for v in tolist(e['D'])) for e in rec['solves'])
         kinds = ''.join(p['kind'] for p in spec['params'])
         ctx.evaluations += max(0, ntrials - 1)
@@ -876,9 +938,15 @@ def run_specs(ctx, pp, torch, specs, tag):
         if why:
             ctx.violation(viol_key(spec, why), why, spec)
         tolA, tolP = tolerances(spec)
+        if tolA[1] == 0 and not exact_guard(spec, rec):
+            ctx.count('exact-guard-fallback')
+            tolA = (REL, None)
         if tolA[1] is None:
             mx = max([abs(v) for e in rec['solves'] for v in tolist(e['A']) + tolist(e['b'])] + [1.0])
             tolA = (REL, Fraction(mx) / 2 ** 44)
+        if tolP[1]:
+            mp_ = max([abs(v) for snap in [rec['P0'], rec['final']] + [e['before'] for e in rec['solves']] + (rec['after'] or []) for q in snap for v in q] + [1.0])
+            tolP = (REL, Fraction(mp_) / 2 ** 40)
         i = len(metas)
         metas.append(spec)
         lits.append(case_lit(pp, torch, i, spec, rec, tolA, tolP))
@@ -939,7 +1007,7 @@ def run(ctx):
                 s = gen_spec(rng, opt=opt, exact=True, kinds=ks, smode='real')
                 s['params'][fr]['req'] = False
                 specs.append(s)
-    for _ in range(ctx.scale(70, 2500)):
+    for _ in range(ctx.scale(70, 1500)):
         specs.append(gen_spec(rng))
     run_specs(ctx, pp, torch, specs, 'step')
     # ---------------------------------------------------------------- search around the mismatches
